@@ -229,8 +229,38 @@ impl Family for SeqFamily {
         let mut count = 0u64;
         let mut reported: std::collections::BTreeMap<String, u32> = std::collections::BTreeMap::new();
         let mut stage_counts: std::collections::BTreeMap<String, u64> = std::collections::BTreeMap::new();
+        // one buffer that is edited in place: the text before and the text after at the same address
+        let mut scratch = String::new();
         let mut visit = |t: &str, rep: &mut Report| {
             count += 1;
+            // a history of two parses: the previous text of the same length, then this one written over it in place,
+            // under one file name and with nothing in between - the second tree must be the tree of the second text
+            if scratch.len() == t.len() && scratch != t {
+                let stale = catch_unwind(AssertUnwindSafe(|| {
+                    let _ = parser::parse(Path::new("x.gom"), &scratch);
+                    scratch.clear();
+                    scratch.push_str(t);
+                    let again = parser::parse(Path::new("x.gom"), &scratch);
+                    parser::syntax::MySyntaxNode::new_root(again.green_node.clone()).text().to_string()
+                }));
+                if let Ok(back) = stale {
+                    if back != t {
+                        let n = reported.entry("12cst.stale-after-edit-in-place".to_string()).or_insert(0);
+                        *n += 1;
+                        if *n <= 3 {
+                            rep.findings.push(Finding {
+                                property: "C12",
+                                class: "cst.stale-after-edit-in-place".into(),
+                                site: format!("kinds={}", kinds(t)),
+                                detail: format!("a buffer was parsed, overwritten in place with {:?} and parsed again: the tree spells {:?}", t, truncate(&back)),
+                                replay: json!({"kind": "text", "text": t, "oracle": "lossless"}),
+                            });
+                        }
+                    }
+                }
+            }
+            scratch.clear();
+            scratch.push_str(t);
             let ks = kinds(t);
             seqs.insert(fnv(&ks));
             let mut viol = check_lossless(t);
